@@ -29,7 +29,7 @@ ASSUMPTIONS = ["operations of different clients do not overlap (the client is sy
                "names and bodies need no escaping (hostile values are C08's / C17's)"]
 
 OPS = ["listscripts", "putscript", "getscript", "deletescript", "setactive", "renamescript", "havespace",
-       "checkscript", "capability", "putscript", "getscript", "listscripts"]
+       "checkscript", "capability", "putscript", "getscript", "listscripts", "badreconnect"]
 
 
 def text_lines(s):
@@ -52,8 +52,6 @@ def run(ch, config, res):
     world = World(ch, cfg, client_impl=config.get("client", "real"), read_size=rsz)
     srv = world.server
     srv.order_variation = True
-    with ch.scope("run"):
-        world.debug = wl.flag("debug", 1, 6)
     srv.text_lit_variation = True
     # in a third of the sessions status replies take every RFC 5804 shape (codes, multi-line literal texts with
     # look-alike lines): their content is C09's business, a reply left half-read is a desynchronisation = ours
@@ -101,6 +99,22 @@ def run(ch, config, res):
                 # forced refusals: NO for anybody; BYE only while another client remains
                 srv.fault_weights = [40, 3, 1 if len(clients) > 1 else 0, 0, 0, 0, 0, 0]
                 args = ()
+                if op == "badreconnect":
+                    # reconnect on the same object asking for a mechanism the server does not announce: must fail, and the
+                    # object must then refuse script commands until it has really authenticated again
+                    srv.fault_weights = [1, 0, 0, 0, 0, 0, 0, 0]
+                    o = world.call(client, "connect", "user", "password", authmech="LOGIN")
+                    if o.kind == "ret" and o.value is True:
+                        fail("C15.mismatch", "op %d: connect(authmech='LOGIN') returned True although the server announces PLAIN only" % i)
+                    o2 = world.call(client, "listscripts")
+                    if not (o2.kind == "exc" and o2.exc_type == "Error" and not o2.writes):
+                        fail("C15.server-violation", "op %d: after a failed reconnect listscripts() %r and wrote %r (Error and nothing written expected)" % (
+                            i, o2, [w[3] for w in o2.writes]))
+                    check_violations("op %d failed reconnect" % i)
+                    if failure[0] is None:
+                        connect(client, "op %d reconnect" % i)
+                    kinds.add(("badreconnect", "refused"))
+                    continue
                 if op in ("getscript", "deletescript"):
                     args = (gen.name(wl, "name"),)
                 elif op == "setactive":
